@@ -48,18 +48,16 @@ pub open spec fn produced_below<T, F: Fn(&T) -> Option<usize>>(f: F, x: T, r: Op
     exists|y: Option<usize>| #[trigger] f.ensures((&x,), y) && (y is Some ==> r is Some && y->Some_0 <= r->Some_0)
 }
 /// R13 SHIM for `v.iter().filter_map(f).max()`: the greatest of the values `f` yields, if any
-pub trait VMaxFilterMap<T> {
+pub trait VMaxFilterMap<T>: vstd::view::View<V = Seq<T>> {
     fn vmax_filter_map<F: Fn(&T) -> Option<usize>>(&self, f: F) -> (r: Option<usize>)
-        requires forall|i: int| 0 <= i < self.vseq().len() ==> #[trigger] f.requires((&self.vseq()[i],)),
+        requires forall|i: int| 0 <= i < self@.len() ==> #[trigger] f.requires((&self@[i],)),
         ensures
             // every element was given to f, and no value f produced is above the result
-            forall|i: int| 0 <= i < self.vseq().len() ==> produced_below(f, #[trigger] self.vseq()[i], r),
+            forall|i: int| 0 <= i < self@.len() ==> produced_below(f, #[trigger] self@[i], r),
             // the result is one of the values f produced
-            r is Some ==> exists|i: int| 0 <= i < self.vseq().len() && #[trigger] f.ensures((&self.vseq()[i],), r);
-    spec fn vseq(&self) -> Seq<T>;
+            r is Some ==> exists|i: int| 0 <= i < self@.len() && #[trigger] f.ensures((&self@[i],), r);
 }
 impl<T> VMaxFilterMap<T> for Vec<T> {
-    open spec fn vseq(&self) -> Seq<T> { self@ }
     #[verifier::external_body]
     fn vmax_filter_map<F: Fn(&T) -> Option<usize>>(&self, f: F) -> (r: Option<usize>)
     { self.iter().filter_map(f).max() }
@@ -119,8 +117,7 @@ pub mod file_spec {
         {
             broadcast use ax_restart_suffix_nonempty;
     //@ span src/parameters/file_spec.rs impl FileSpec / fn collision_free_infix_for_rotated_file
-    //@   from if new_path.exists() ||
-    //@   upto if new_path.exists() ||
+    //@   tail
     //@   rename choose_infix
     //@   rule R13 1
     //@   rule R14 1
